@@ -12,8 +12,23 @@ def _issym(x):
     return _ri(x, (SymInt, SymBool))
 
 
-def _idx(i):
+def _clamp(x, n):
+    """slice bound -> the clamped value Python would use (only n+1 different outcomes, so the case split stays small)"""
+    if not _issym(x):
+        return x
+    from .core import SymInt
+    if _ri(x, SymInt):
+        if bool(x >= n):
+            return n
+        if bool(x <= -n):
+            return -n if n else 0
+    return x.__index__()
+
+
+def _idx(i, n=None):
     if _ri(i, slice):
+        if n is not None and (i.step is None or i.step == 1):
+            return slice(_clamp(i.start, n), _clamp(i.stop, n), i.step)
         return slice(*(x.__index__() if _issym(x) else x for x in (i.start, i.stop, i.step)))
     return i.__index__() if _issym(i) else i
 
@@ -70,7 +85,7 @@ class SymBytes:
         return iter(self.items)
 
     def __getitem__(self, i):
-        i = _idx(i)
+        i = _idx(i, len(self.items))
         if _ri(i, slice):
             return SymBytes.make(self.items[i], self.mutable)
         return self.items[i]
